@@ -170,11 +170,13 @@ theorem handleHvr_npres (C : Crypto) (L : Loc) (e : Ep) (b : Bytes) : NPres e (h
   unfold handleHvr
   split
   · intro log ha hi
-    refine ⟨?_, ha⟩
     have := hi.advance (by simpa [nview] using ha) 1
       (some [(hsRecord { e.ctx with transcript := rawMsg dtlsHtClientHello e.ctx.msgSeq L.ch2Body } (rawMsg dtlsHtClientHello e.ctx.msgSeq L.ch2Body) false).1])
       (Or.inr (by intro fl hfl w hw; cases hfl; simp [hsRecord] at hw; subst hw; simp))
-    simpa [nview, RtcModel.DtlsHs.ok, hsRecord, sends, sealedOf] using this
+    dsimp only
+    split
+    · exact ⟨by simpa [nview, hsRecord, sends, sealedOf] using this, ha⟩
+    · exact ⟨by simpa [nview, RtcModel.DtlsHs.ok, hsRecord, sends, sealedOf] using this, ha⟩
   · exact NPres.ok e
 
 
@@ -449,11 +451,18 @@ theorem acceptMsg_npres (C : Crypto) (L : Loc) (e : Ep) (m : HsMsg) : NPres e (a
           rw [RtcModel.DtlsHs.ok]; dsimp only
           rw [nview_withCtx _ _ (by simpa [appendFrag] using hb.1) (by simpa [appendFrag] using hb.2.1)
             (by simpa [appendFrag] using hb.2.2.1) (by simpa [appendFrag] using hb.2.2.2), hv0]) rfl
-      · refine NPres.of_nview ?_ (handleMsg_npres C L _ _ _ _)
-        rw [nview_withCtx _ _ (by simpa [noteMsg, takeBuffer, appendFrag] using hb.1) (by simpa [noteMsg, takeBuffer, appendFrag] using hb.2.1)
-          (by simpa [noteMsg, takeBuffer, appendFrag] using hb.2.2.1) (by simpa [noteMsg, takeBuffer, appendFrag] using hb.2.2.2), hv0]
-  · refine NPres.of_nview ?_ (handleMsg_npres C L _ _ _ _)
-    rw [nview_withCtx _ _ (by simp [noteMsg]) (by simp [noteMsg]) (by simp [noteMsg]) (by simp [noteMsg]), hv0]
+      · split
+        · exact NPres.silent (by
+            dsimp only
+            rw [nview_withCtx _ _ (by simpa [takeBuffer, appendFrag] using hb.1) (by simpa [takeBuffer, appendFrag] using hb.2.1)
+              (by simpa [takeBuffer, appendFrag] using hb.2.2.1) (by simpa [takeBuffer, appendFrag] using hb.2.2.2), hv0]) rfl
+        · refine NPres.of_nview ?_ (handleMsg_npres C L _ _ _ _)
+          rw [nview_withCtx _ _ (by simpa [noteMsg, takeBuffer, appendFrag] using hb.1) (by simpa [noteMsg, takeBuffer, appendFrag] using hb.2.1)
+            (by simpa [noteMsg, takeBuffer, appendFrag] using hb.2.2.1) (by simpa [noteMsg, takeBuffer, appendFrag] using hb.2.2.2), hv0]
+  · split
+    · exact NPres.silent hv0 rfl
+    · refine NPres.of_nview ?_ (handleMsg_npres C L _ _ _ _)
+      rw [nview_withCtx _ _ (by simp [noteMsg]) (by simp [noteMsg]) (by simp [noteMsg]) (by simp [noteMsg]), hv0]
 
 theorem gate_npres (C : Crypto) (L : Loc) (e : Ep) (a : Bool) (m : HsMsg) : NPres e (gate C L e a m) := by
   unfold gate
